@@ -2,7 +2,7 @@ CONSTANTS
   Rules <- RulesQuick
   ReqsR <- ReqsRQuick
   MaxRules = 2
-  Defects = {}
+  Defects = {"SkipAbsentCluster"}
 SPECIFICATION Spec
-INVARIANTS FirstWins NoneOnlyIfNone EarlierDoNotHold KvIsFirstIndexed HandlerIsMatchRoute
+INVARIANTS HandlerIsMatchRoute
 CHECK_DEADLOCK FALSE
